@@ -26,9 +26,11 @@ from . import models as M
 from .c13 import lemma_session
 
 LEVEL = "proof"
-EXPLANATION = ("Deductive: homogeneity lemma per power-law model over the C02 postconditions and the unit/frame "
-               "obligations of the real _fit and fit for all k > 0. Bounded: numerical equivalence of k-fits and "
-               "k=1 fits on a recorded curve (optimizer behaviour is outside the contracts).")
+EXPLANATION = ("Deductive: homogeneity lemma per power-law model over the C02 postconditions, the unit/frame "
+               "obligations of the real _fit and fit (fitter built by the real __init__) for all k > 0, and the "
+               "plateau scan grid as a function of the measured abscissa only. Bounded: numerical equivalence of "
+               "k-fits and k=1 fits incl. plateau search on a recorded curve (optimizer behaviour is outside the "
+               "contracts).")
 POWER = {"hertz_para": Fraction(3, 2), "hertz_cone": Fraction(2), "hertz_pyr3s": Fraction(2)}
 
 
